@@ -39,6 +39,9 @@ pub struct CCase {
     pub ops: Vec<COp>,
     /// Capacity of the channels opened by the final settle.
     pub final_cap: usize,
+    /// false: only the ad hoc apis (`send_command`, `SendCommand`) are used, so no commander
+    /// registration messages exist; true: all four apis.
+    pub commander: bool,
 }
 
 fn arb_params() -> impl Strategy<Value = SimParams> {
@@ -94,18 +97,19 @@ fn arb_cop() -> impl Strategy<Value = COp> {
     ]
 }
 
-pub fn arb_case(max_ops: usize) -> impl Strategy<Value = CCase> {
+pub fn arb_case(max_ops: usize, commander: bool) -> impl Strategy<Value = CCase> {
     (
         arb_params(),
         proptest::sample::subsequence((0u8..TARGETS.len() as u8).collect::<Vec<_>>(), 1..=3),
         proptest::collection::vec(arb_cop(), 2..max_ops),
         arb_small_cap(),
     )
-        .prop_map(|(params, targets, ops, final_cap)| CCase {
+        .prop_map(move |(params, targets, ops, final_cap)| CCase {
             params,
             targets,
             ops,
             final_cap,
+            commander,
         })
 }
 
@@ -172,7 +176,8 @@ fn programs_of(case: &CCase) -> Vec<Vec<CAct>> {
                 .map(|(i, (slot, api))| CAct {
                     t: case.targets[(*slot as usize) % case.targets.len()] as usize % TARGETS.len(),
                     v: ((k as i64) + 1) * 1000 + i as i64,
-                    api: Api::from_index(*api),
+                    // odd = not overwritable; without the commander apis 2,3 fold onto 0,1
+                    api: Api::from_index(if case.commander { *api } else { *api % 2 }),
                 })
                 .collect();
             programs.push(prog);
@@ -267,6 +272,19 @@ fn parse_i64(body: &[u8]) -> Option<i64> {
     std::str::from_utf8(body).ok()?.trim().parse().ok()
 }
 
+/// Appends the sub-check's suffix to every signature (the commander variant has its own
+/// signatures so that a finding that needs registration messages does not mask the ad hoc variant).
+struct SigVerdict {
+    v: Verdict,
+    sfx: &'static str,
+}
+
+impl SigVerdict {
+    fn fail(&mut self, sig: &str, detail: String) {
+        self.v.fail(format!("{}{}", sig, self.sfx), detail);
+    }
+}
+
 struct SentCmd {
     seq: u64,
     v: i64,
@@ -290,12 +308,12 @@ pub fn check(case: &CCase) -> Verdict {
         }
         eprintln!("idle {:?} quiescent {:?} result {:?}", obs.idle, obs.quiescent, obs.result);
     }
-    let mut v = Verdict::new();
+    let mut v = SigVerdict { v: Verdict::new(), sfx: if case.commander { "@commander" } else { "" } };
     if let Some(Err(e)) = &obs.result {
         v.fail("agent-failed", format!("the agent task ended with an error: {}", e));
     }
-    if obs.result.is_some() {
-        v.fail("agent-stopped", "the agent task ended although nothing asked it to stop".to_string());
+    if matches!(obs.result, Some(Ok(()))) {
+        v.fail("harness:agent-stopped", "the agent task ended although nothing asked it to stop".to_string());
     }
     if obs.unanswered > 0 || obs.ctl_unwritten > 0 {
         v.fail("harness-not-quiescent", format!("unanswered {} ctl bytes unwritten {}", obs.unanswered, obs.ctl_unwritten));
@@ -467,6 +485,7 @@ pub fn check(case: &CCase) -> Verdict {
             }
         }
     }
+    let mut v = v.v;
     if nontrivial {
         v.nontrivial();
     }
